@@ -74,19 +74,35 @@ def classes_for(case, twod):
 
 
 def homogeneity(ctx, case, fwd, inv, x, y, X, yi, delta, df, T, what):
-    """Scaling by a power of two is exact in binary floating point (no under/overflow at these magnitudes), so
-    the transforms of 2^e x must be bit-for-bit 2^e times the transforms of x, and weak signals must survive
-    the round trip just as strong ones do."""
+    """Scaling by a power of two is exact in binary floating point as long as nothing leaves the normal range, so the
+    transforms of 2^e x must be bit-for-bit 2^e times the transforms of x (components that fall below the smallest normal
+    number of the type - 1.2e-38 in single precision - are rounded to the subnormal grid and compared on it), and weak
+    signals must survive the round trip just as strong ones do."""
     e = case.get("amp_exp", 0)
     if not e or x.dtype.kind not in "fc":
         return
     s = 2.0 ** e
     xs, ys = x * s, y * s
     ctx.require(xs.dtype == x.dtype, "harness: scaling changed the dtype")
+    def exact(got, want, msg):
+        got, want = np.asarray(got), np.asarray(want)
+        ctx.require(got.shape == want.shape and got.dtype == want.dtype, msg + ": shape / dtype %s %s vs %s %s" % (got.shape, got.dtype, want.shape, want.dtype))
+        rt = np.float32 if got.dtype in (np.complex64, np.float32) else (np.float64 if got.dtype in (np.complex128, np.float64) else None)
+        if rt is None or not np.array_equal(got, want):
+            if rt is None:
+                ctx.equal(got, want, msg)
+                return
+            g, w = np.ascontiguousarray(got).view(rt).astype(np.float64), np.ascontiguousarray(want).view(rt).astype(np.float64)
+            fin = np.finfo(rt)
+            normal = np.abs(w) >= float(fin.tiny)
+            bad = (normal & (g != w)) | (~normal & (np.abs(g - w) > 2 * float(fin.smallest_subnormal)))
+            if bad.any():
+                ctx.equal(got, want, msg)               # reports the first differing entry
+            ctx.classes["homogeneity_compared_on_the_subnormal_grid"] += 1
     Xs = fwd(xs, delta)
-    ctx.equal(Xs, X * s, "%s(2^%d x) == 2^%d %s(x) exactly" % (what, e, e, what))
+    exact(Xs, X * s, "%s(2^%d x) == 2^%d %s(x) exactly" % (what, e, e, what))
     yis = inv(ys, df)
-    ctx.equal(yis, yi * s, "i%s(2^%d X) == 2^%d i%s(X) exactly" % (what, e, e, what))
+    exact(yis, yi * s, "i%s(2^%d X) == 2^%d i%s(X) exactly" % (what, e, e, what))
     ctx.close(inv(Xs, df), xs.astype(np.complex128), T, "i%s(%s(x)) == x at amplitude 2^%d" % (what, what, e), scale=norm(xs))
 
 
